@@ -11,7 +11,7 @@ package main
 //   infl queued          gauges                       subs.cur subs.total  subscription statistics
 //   cn.connected cn.disconnected se.created se.term.<reason> active inactive   (global only)
 // Right of `##`: GROUND TRUTH kept by the harness, independent of statsManager:
-//   T:<conn>=<cid>|tx:<type>=<n>/<bytes>,…|rx:…|mtx:<qos>=<n>,…|mrx:…   everything the scripted client wrote / decoded on that
+//   T:<conn>=<cid>|acc:<0|1>|tx:<type>=<n>/<bytes>,…|rx:…|mtx:<qos>=<n>,…|mrx:…   (acc: a CONNACK with code 0 was received) everything the scripted client wrote / decoded on that
 //        connection, cumulative (tx bytes = counted at the socket; rx bytes = size of the decoded packet)
 //   Q:<cid>=<len>/<inflight>   real contents of every session queue (persistence/queue/mem VerifLens)
 //   S:<cid>=<n>                subscriptions per client found by SubscriptionService.Iterate
@@ -241,7 +241,11 @@ func statsOp(d *brokerDrv, pos []string, m map[string]string) string {
 				mtx[fmt.Sprint(s.Qos)]++
 			}
 		}
+		acc := 0
 		for _, p := range c.Received() {
+			if p.Type == mqttcli.CONNACK && p.Code == 0 {
+				acc = 1
+			}
 			rx[typeNames[p.Type]]++
 			rxb[typeNames[p.Type]] += uint64(p.Raw)
 			if p.Type == mqttcli.PUBLISH {
@@ -260,7 +264,7 @@ func statsOp(d *brokerDrv, pos []string, m map[string]string) string {
 			}
 			return strings.Join(ps, ",")
 		}
-		tparts = append(tparts, fmt.Sprintf("%s=%s|tx:%s|rx:%s|mtx:%s|mrx:%s", n, showBytes(c.ClientID), pair(tx, txb), pair(rx, rxb), kvList(mtx), kvList(mrx)))
+		tparts = append(tparts, fmt.Sprintf("%s=%s|acc:%d|tx:%s|rx:%s|mtx:%s|mrx:%s", n, showBytes(c.ClientID), acc, pair(tx, txb), pair(rx, rxb), kvList(mtx), kvList(mrx)))
 	}
 	var qparts []string
 	if ql, ok := srv.(interface{ VerifQueueLens() map[string][2]int }); ok {
